@@ -7,7 +7,8 @@
 (*   completeness   WellFormed(raw) /\ expressions acceptable               *)
 (*                      => no fatal issue /\ no syntax-error warning        *)
 (*   soundness      ~WellFormed(raw) /\ no fatal issue                      *)
-(*                      => run clean /\ every transformation clean          *)
+(*                      => run clean /\ every configuration of the run     *)
+(*                         legal /\ every transformation clean             *)
 (*                  (a dirty run of a WellFormed document is C01/C02/C07's  *)
 (*                   business and is not reported again here)               *)
 (*   termination    the validator itself ended normally                     *)
@@ -24,6 +25,18 @@ VInit == /\ TLCSet(1, ndJsonDeserialize(IOEnv.TRACE)) /\ TLCSet(2, ndJsonDeseria
 
 Clean(x) == x \in {"ok", "skipped"}
 
+\* legality (Rec. 3.11) of a configuration the run went through, given as state ids ("#root" = <scxml>);
+\* only meaningful when ids are unique
+CfgOf(r, ids) == {s \in NSr(r) : (s = 1 /\ "#root" \in Seq2Set(ids)) \/ (r.states[s].id # "" /\ s # 1 /\ r.states[s].id \in Seq2Set(ids))}
+LegalCfgR(r, S) ==
+    /\ 1 \in S
+    /\ \A s \in S : IsProperR(r, s) /\ (s # 1 => r.states[s].parent \in S)
+    /\ \A s \in S : (r.states[s].kind \in {"state", "scxml"} /\ KidsR(r, s) # {}) => Cardinality(KidsR(r, s) \cap S) = 1
+    /\ \A s \in S : r.states[s].kind = "parallel" => KidsR(r, s) \subseteq S
+IllegalCfgs(r, d) ==
+    IF ~UniqueIds(r) \/ (\E s \in NSr(r) : s # 1 /\ IsProperR(r, s) /\ r.states[s].id = "") THEN {}
+    ELSE {i \in 1..Len(d.cfgs) : ~LegalCfgR(r, CfgOf(r, d.cfgs[i]))}
+
 VNext ==
     /\ l <= Len(Docs)
     /\ LET d == Docs[l]
@@ -36,6 +49,9 @@ VNext ==
            /\ (d.validate = "ok" /\ wf /\ ~nofatal => Report(V("valid-document-reported-fatal", 0, d.issues)))
            /\ (d.validate = "ok" /\ wf /\ nofatal /\ d.syntax > 0 => Report(V("valid-expressions-reported-as-syntax-errors", 0, d.issues)))
            /\ (d.validate = "ok" /\ ~wf /\ nofatal /\ ~Clean(d.run) => Report(V("invalid-document-passed-and-run-failed", "ok", d.run)))
+           /\ (d.validate = "ok" /\ ~wf /\ nofatal /\ Clean(d.run) /\ IllegalCfgs(r, d) # {} =>
+                   Report(V("invalid-document-passed-and-reached-an-illegal-configuration", "legal",
+                            d.cfgs[CHOOSE i \in IllegalCfgs(r, d) : TRUE])))
            /\ (d.validate = "ok" /\ ~wf /\ nofatal /\ ~(Clean(d.c) /\ Clean(d.pml) /\ Clean(d.vhdl)) =>
                    Report(V("invalid-document-passed-and-transformation-failed", "ok", <<d.c, d.pml, d.vhdl>>)))
     /\ l' = l + 1
